@@ -24,14 +24,42 @@ class Violation(Exception):
         self.finding = finding
 
 
+def group_md_of(t):
+    """plain deep copy of a table's group metadata, both axes"""
+    out = []
+    for name in ('observation', 'sample'):
+        gm = t.group_metadata(name)
+        out.append(None if not gm else
+                   {str(k): (tuple(v) if isinstance(v, (tuple, list)) else v)
+                    for k, v in gm.items()})
+    return out
+
+
 class Slot:
-    __slots__ = ('real', 'ref', 'born', 'tags')
+    __slots__ = ('real', 'ref', 'born', 'tags', 'gm')
 
     def __init__(self, real, ref, born, tags=()):
         self.real = real
         self.ref = ref
         self.born = born
         self.tags = set(tags)
+        self.gm = None
+
+    def group_md_baseline(self):
+        """group metadata is not modelled per operation (no operation is
+        documented to carry or drop it): whatever a table has when it enters
+        the pool is its baseline, and only add_group_metadata on that very
+        table may change it"""
+        self.gm = (id(self.real), group_md_of(self.real))
+
+    def group_md_changed(self):
+        if self.gm is None or self.gm[0] != id(self.real):
+            self.group_md_baseline()
+            return None
+        now = group_md_of(self.real)
+        if now != self.gm[1]:
+            return 'group metadata %r, was %r' % (now, self.gm[1])
+        return None
 
 
 class Reader:
@@ -205,6 +233,15 @@ class World:
             if d:
                 failures.append(('bystander.changed', 'slot %d after %s: %s'
                                  % (i, tag, d)))
+                if last.get('name') in ('add_metadata', 'del_metadata'):
+                    # a metadata update on one table showing in another one:
+                    # also "exactly the named ids and keys" of C18
+                    failures.append(('metadata.other_table_changed',
+                                     'slot %d after %s: %s' % (i, tag, d)))
+            g = s.group_md_changed()
+            if g:
+                failures.append(('bystander.group_metadata',
+                                 'slot %d after %s: %s' % (i, tag, g)))
             self.case('bystander.changed', tag, s, pool=len(self.pool))
             self.probe_count['coherence'] += 1
         if failures:
